@@ -353,6 +353,23 @@ static void h_op(void)
     free(buf);
   } else if (!strcmp(op, "kh_sizes")) {
     h_out("ok hashsize=%u kalloc=%d salloc=%d sn=%d", KH->hashsize, KH->kalloc, KH->salloc, KH->sn);
+  } else if (!strcmp(op, "kh_slots")) {
+    /* the raw state of hashtable[] and the nxt[] chains, read directly (not through esl_keyhash_Dump): non-empty slots, records
+     * on all chains together, chain pointers outside [0,nkeys), chains longer than nkeys (a cycle). After esl_keyhash_Reuse()
+     * every slot must be -1 at ANY fill. Mirrors Keyhash.slotStats of the model. */
+    long used = 0, chained = 0, bad = 0, cyc = 0; uint32_t hh;
+    for (hh = 0; hh < KH->hashsize; hh++) {
+      int idx = KH->hashtable[hh]; long fuel = KH->nkeys;
+      if (idx == -1) continue;
+      used++;
+      while (idx != -1) {
+        if (fuel == 0) { cyc++; break; }
+        fuel--;
+        if (idx < 0 || idx >= KH->nkeys) { bad++; break; }
+        idx = KH->nxt[idx]; chained++;
+      }
+    }
+    h_out("ok slots nkeys=%d hashsize=%u used=%ld chained=%ld bad=%ld cyc=%ld", KH->nkeys, KH->hashsize, used, chained, bad, cyc);
   }
   /* ------------------------------------------------ heap */
   else if (!strcmp(op, "heap_new")) {
